@@ -118,11 +118,19 @@ func cliAutoScript(t *testing.T, r *Rng, s *Stream) {
 	}
 	lease := Pick(r, int64(120), 600, 3600, 86400, 4294967295, 61)
 	t1o, t2o := int64(0), int64(0)
-	switch r.Intn(4) {
+	switch r.Intn(8) {
 	case 0:
 		t1o, t2o = lease/3, lease*2/3 // consistent (if > 60 s)
 	case 1:
-		t1o, t2o = lease, lease/2 // inconsistent
+		t1o, t2o = lease, lease/2 // T1 = lease, T2 < T1
+	case 2:
+		t1o, t2o = lease/4, lease*2 // T1 < lease < T2
+	case 3:
+		t1o, t2o = lease/2, lease // T2 = lease
+	case 4:
+		t1o, t2o = 60, lease/2 // T1 not above one minute
+	case 5:
+		t1o, t2o = lease/2, lease/2 // T1 = T2
 	}
 
 	decide := func(f rsocks.Frame) {
@@ -362,6 +370,31 @@ func cliAutoScript(t *testing.T, r *Rng, s *Stream) {
 	}
 	if strings.HasPrefix(res, "fatal") {
 		fail("fatal", "the client died: "+res, res)
+	}
+	// a NAK while renewing / rebinding must be followed by the removal of the configuration
+	for i, h := range hist {
+		if strings.HasSuffix(h, " ev  N") {
+			st := ""
+			for j := i - 1; j >= 0; j-- {
+				if k := strings.Index(hist[j], " eff send:"); k >= 0 {
+					st = strings.SplitN(hist[j][k+10:], ":", 2)[0]
+					break
+				}
+			}
+			next := ""
+			for j := i + 1; j < len(hist); j++ {
+				if k := strings.Index(hist[j], " eff "); k >= 0 {
+					next = hist[j][k+5:]
+					break
+				}
+			}
+			if (st == "renewing" || st == "rebinding") && next != "" && next != "preNil" {
+				fail("nak-ignored", "a NAK arrived while "+st+" but the client did not remove its address and restart discovery", h+" -> "+next)
+			}
+			if st == "selecting" && next != "" && !strings.HasPrefix(next, "send:discover") {
+				fail("nak-ignored-selecting", "a NAK arrived while selecting but the client did not restart discovery", h+" -> "+next)
+			}
+		}
 	}
 	lastAck := ""
 	probedSince := false
